@@ -89,7 +89,7 @@ impl<'a, 'b> Shrinker<'a, 'b> {
         // drop clock steps one by one, then shrink frames from the tail
         let mut i = 0;
         while i < cur.len() && self.executions < self.budget {
-            if matches!(cur[i], Step::Clock(_)) {
+            if matches!(cur[i], Step::Clock(_) | Step::Mono(_)) {
                 let mut cand = cur.clone();
                 cand.remove(i);
                 if self.fires(&cand)?.is_some() {
